@@ -1,6 +1,8 @@
 CONSTANTS Threads = {1, 2, 3, 4, 11, 12, 13, 14}
           Programs = {}
           NotifyUnderLock = TRUE
+          Delegates = {}
+          CursorBeforeWake = FALSE
           SpuriousWakeups = TRUE
 SPECIFICATION TSpec
 POSTCONDITION Accepted
